@@ -1,23 +1,24 @@
-(* C12/Proofs.v — the three crash classes are real (witnesses), and they are the only ones. *)
+(* C12/Proofs.v — no input makes message creation or any accessor of an accepted message panic. *)
 From ZV Require Import Base.Bytes Base.Res Base.Sig C10.Model C11.Model C11.Lemmas C11.Invariants C12.Spec.
 From Coq Require Import Lia ZifyBool ZifyN ZifyNat.
 Open Scope N_scope.
 
 (* ---------- from_raw_parts ---------- *)
-Lemma from_raw_parts_no_panic ctx b p : b <> [] -> from_raw_parts ctx b <> Panic p.
+Lemma from_raw_parts_no_panic ctx b p : from_raw_parts ctx b <> Panic p.
 Proof.
-  intros Hne. unfold from_raw_parts. destruct b as [|b0 r]; [congruence|].
+  unfold from_raw_parts. destruct b as [|b0 r]; [discriminate|].
   destruct (endian_of_byte b0); [|discriminate]. destruct (negb _); [discriminate|].
   intros H. apply bind_panic in H. destruct H as [H|([ph size] & Hp & H)]; [eapply de_primary_no_panic; eauto|].
   apply de_primary_ok in Hp. destruct Hp as (-> & Hlen & _). cbn [N.eqb negb Pos.eqb] in H.
   unfold data_slice in H. destruct (len (b0 :: r) <? 12) eqn:E; [lia|]. cbn [bind] in H.
   apply bind_panic in H. destruct H as [H|([fl q] & _ & H)]; [eapply de_u32_no_panic; eauto|].
   apply bind_panic in H. destruct H as [H|([fs q'] & _ & H)]; [eapply de_fields_no_panic; eauto|].
-  discriminate.
+  match type of H with (if ?c then _ else _) = _ => destruct c; discriminate H end.
 Qed.
 
+(* an accepted message: its cached fields denote valid names found in the buffer, and the body offset lies inside it *)
 Lemma from_raw_parts_ok ctx b m : from_raw_parts ctx b = Ok m ->
-  m_bytes m = b /\ exists fs, fields_inv b fs /\ m_qf m = quick_fields b fs.
+  m_bytes m = b /\ m_body_offset m <= len b /\ exists fs, fields_inv b fs /\ m_qf m = quick_fields b fs.
 Proof.
   unfold from_raw_parts. destruct b as [|b0 r]; [discriminate|].
   destruct (endian_of_byte b0); [|discriminate]. destruct (negb _); [discriminate|].
@@ -26,55 +27,47 @@ Proof.
   apply bind_ok in H. destruct H as (? & _ & H).
   apply bind_ok in H. destruct H as ([fl q] & _ & H).
   apply bind_ok in H. destruct H as (? & _ & H).
-  apply bind_ok in H. destruct H as ([fs q'] & Hf & H). injection H as <-. cbn.
-  split; [reflexivity|]. exists fs. split; [eapply de_fields_ok; eauto|reflexivity].
+  apply bind_ok in H. destruct H as ([fs q'] & Hf & H). cbv zeta in H.
+  destruct (len (b0 :: r) <? _) eqn:E; [discriminate|]. injection H as <-. cbv beta iota delta [m_bytes m_body_offset m_qf].
+  split; [reflexivity|]. split; [lia|]. exists fs. split; [eapply de_fields_ok; eauto|reflexivity].
 Qed.
 
 (* ---------- cached field positions ---------- *)
-Lemma fp_read_new v b o : ostr_at b o ->
-  fp_read v b (fp_new b o) = Ok None
-  \/ exists s, fp_slice b (fp_new b o) = Some s /\ fp_read v b (fp_new b o) = if v s then Ok (Some s) else Panic PUnwrap.
+Lemma fp_read_valid v b o : ostr_at b o -> ovalid v o -> exists r, fp_read v b (fp_new b o) = Ok r.
 Proof.
-  destruct o as [[s st]|]; [|left; reflexivity].
-  cbn [ostr_at fp_new]. intros (H2 & Hle & Hs & Hu). unfold fp_build.
-  destruct ((st <=? len b) && (st + len s <=? len b) && (st <? two32) && (st + len s <? two32)); [|left; reflexivity].
-  right. exists s. unfold fp_slice, fp_read.
+  destruct o as [[s st]|]; [|intros _ _; eexists; reflexivity].
+  cbn [ostr_at ovalid fp_new]. intros (H2 & Hle & Hs & Hu) Hv. unfold fp_build.
+  destruct ((st <=? len b) && (st + len s <=? len b) && (st <? two32) && (st + len s <? two32)); [|eexists; reflexivity].
+  unfold fp_read.
   destruct ((st <=? 1) && (st + len s =? 0)) eqn:E; [lia|].
   destruct ((st + len s <? st) || (len b <? st + len s)) eqn:E2; [lia|].
-  replace (st + len s - st) with (len s) by lia. rewrite Hs, Hu. split; reflexivity.
-Qed.
-
-Lemma fp_read_good v b o : ostr_at b o -> fp_invalid v b (fp_new b o) = false -> exists r, fp_read v b (fp_new b o) = Ok r.
-Proof.
-  intros Ho Hi. destruct (fp_read_new v b o Ho) as [H|(s & Hs & H)]; [eauto|].
-  unfold fp_invalid in Hi. rewrite Hs in Hi. rewrite H. destruct (v s); [eauto|discriminate].
+  replace (st + len s - st) with (len s) by lia. rewrite Hs, Hu, Hv. eexists. reflexivity.
 Qed.
 
 (* ---------- accessors ---------- *)
-Lemma header_ok ctx b m : from_raw_parts ctx b = Ok m -> bad_name m = false -> exists h, header m = Ok h.
+Lemma header_ok ctx b m : from_raw_parts ctx b = Ok m -> exists h, header m = Ok h.
 Proof.
-  intros Hp Hb. apply from_raw_parts_ok in Hp. destruct Hp as (Hbytes & fs & Hinv & Hq).
-  unfold bad_name in Hb. rewrite Hbytes, Hq in Hb. cbn [quick_fields q_path q_iface q_member q_errname q_dest q_sender] in Hb.
-  repeat (apply Bool.orb_false_iff in Hb; destruct Hb as [Hb ?]).
-  destruct Hinv as (I1 & I2 & I3 & I4 & I5 & I6 & _).
+  intros Hp. apply from_raw_parts_ok in Hp. destruct Hp as (Hbytes & _ & fs & Hinv & Hq).
+  destruct Hinv as (I1 & I2 & I3 & I4 & I5 & I6 & V1 & V2 & V3 & V4 & V5 & V6).
   unfold header. rewrite Hbytes, Hq. cbn [quick_fields q_path q_iface q_member q_errname q_dest q_sender q_reply q_sig q_fds].
-  destruct (fp_read_good validate_object_path b _ I1 Hb) as (r1 & ->). cbn [bind].
-  destruct (fp_read_good validate_interface b _ I2 H3) as (r2 & ->). cbn [bind].
-  destruct (fp_read_good validate_member b _ I3 H2) as (r3 & ->). cbn [bind].
-  destruct (fp_read_good validate_error b _ I4 H1) as (r4 & ->). cbn [bind].
-  destruct (fp_read_good validate_bus b _ I5 H0) as (r5 & ->). cbn [bind].
-  destruct (fp_read_good validate_unique b _ I6 H) as (r6 & ->). cbn [bind].
+  destruct (fp_read_valid validate_object_path b _ I1 V1) as (r1 & ->). cbn [bind].
+  destruct (fp_read_valid validate_interface b _ I2 V2) as (r2 & ->). cbn [bind].
+  destruct (fp_read_valid validate_member b _ I3 V3) as (r3 & ->). cbn [bind].
+  destruct (fp_read_valid validate_error b _ I4 V4) as (r4 & ->). cbn [bind].
+  destruct (fp_read_valid validate_bus b _ I5 V5) as (r5 & ->). cbn [bind].
+  destruct (fp_read_valid validate_unique b _ I6 V6) as (r6 & ->). cbn [bind].
   eauto.
 Qed.
 
-Lemma body_ok m : m_body_offset m <= len (m_bytes m) -> exists bd, body m = Ok bd.
-Proof. intros H. unfold body, data_slice. destruct (len (m_bytes m) <? m_body_offset m) eqn:E; [lia|eauto]. Qed.
-
-Lemma accessors_ok ctx b m : from_raw_parts ctx b = Ok m -> bad_name m = false -> m_body_offset m <= len b -> accessors_no_panic m.
+Lemma body_ok ctx b m : from_raw_parts ctx b = Ok m -> exists bd, body m = Ok bd.
 Proof.
-  intros Hp Hb Hoff. destruct (header_ok ctx b m Hp Hb) as (h & Hh).
-  assert (Hbytes : m_bytes m = b) by (apply from_raw_parts_ok in Hp; tauto).
-  destruct (body_ok m) as (bd & Hbd); [rewrite Hbytes; exact Hoff|].
+  intros Hp. apply from_raw_parts_ok in Hp. destruct Hp as (Hbytes & Hoff & _).
+  unfold body, data_slice. rewrite Hbytes. destruct (len b <? m_body_offset m) eqn:E; [lia|eauto].
+Qed.
+
+Lemma accessors_ok ctx b m : from_raw_parts ctx b = Ok m -> accessors_no_panic m.
+Proof.
+  intros Hp. destruct (header_ok ctx b m Hp) as (h & Hh). destruct (body_ok ctx b m Hp) as (bd & Hbd).
   unfold accessors_no_panic, no_panic, display, debug_ok, body_deser. rewrite Hh, Hbd. cbn [bind].
   repeat split; intros p; try discriminate.
   destruct (ph_type (m_ph m) =? 1); cbn [bind]; [discriminate|].
@@ -82,20 +75,15 @@ Proof.
   destruct (ph_type (m_ph m) =? 3); cbn [bind]; discriminate.
 Qed.
 
-(* ---------- the theorem for everything outside the known classes ---------- *)
-Theorem partial ctx b : Known_C12 ctx b = false -> C12_statement_for ctx b.
+(* ---------- C12 at full strength ---------- *)
+Theorem nopanic : C12_full_statement.
 Proof.
-  unfold Known_C12, classify12, C12_statement_for. intros HK.
-  destruct b as [|b0 r]; [discriminate|].
-  split.
-  - intros p. apply from_raw_parts_no_panic. discriminate.
-  - intros m Hm. rewrite Hm in HK.
-    destruct (len (b0 :: r) <? m_body_offset m) eqn:E; [discriminate|].
-    destruct (bad_name m) eqn:Eb; [discriminate|].
-    eapply accessors_ok; eauto. lia.
+  intros ctx b. split.
+  - intros p. apply from_raw_parts_no_panic.
+  - intros m Hm. eapply accessors_ok; eauto.
 Qed.
 
-(* the field loop's fuel is never what stops it: [Err EFuel] is not an outcome of parsing *)
+(* the loop and nesting bounds of the model are never what stops it: [Err EFuel] is not an outcome of parsing *)
 Theorem no_fuel ctx b : from_raw_parts ctx b <> Err EFuel.
 Proof.
   unfold from_raw_parts. destruct b as [|b0 r]; [discriminate|].
@@ -111,35 +99,24 @@ Proof.
       repeat match goal with |- context [match ?x with _ => _ end] => destruct x; cbn [bind]; try discriminate end. }
     apply bind_fuel in H. destruct H as [H|(? & _ & H)].
     { revert H. unfold data_slice. destruct (_ <? _); discriminate. }
-    apply bind_fuel in H. destruct H as [H|([? ?] & _ & H)]; [eapply de_fields_no_fuel; eauto|discriminate].
+    apply bind_fuel in H. destruct H as [H|([? ?] & _ & H)]; [eapply de_fields_no_fuel; eauto|].
+    match type of H with (if ?c then _ else _) = _ => destruct c; discriminate H end.
 Qed.
 
-(* ---------- witnesses (the same bytes are in known_findings/C12.jsonl and were run on the real code) ---------- *)
+(* ---------- the former witnesses (known_findings/C12.jsonl, status fixed) are now rejected ---------- *)
 Definition unhex (s : string) : bytes := match bytes_of_hex (B s) with Some b => b | None => [] end.
-
 (* a method call whose 29-byte field array ends at offset 45; the input stops at 46 instead of 48 *)
 Definition wit_short : bytes :=
   unhex "6c01000100000000010000001d00000001016f00040000002f612f6200000000030173000400000050696e670000".
-(* MEMBER = "a.b" : accepted by the derived TryFrom<Value>, refused by MemberName::try_from in FieldPos::read *)
+(* MEMBER = "a.b" *)
 Definition wit_name : bytes :=
   unhex "6c01000100000000010000001c00000001016f00040000002f612f62000000000301730003000000612e620000000000".
+Example former_witnesses_rejected :
+  (exists e, from_raw_parts LE [] = Err e) /\ (exists e, from_raw_parts LE wit_short = Err e) /\ (exists e, from_raw_parts LE wit_name = Err e).
+Proof. repeat (match goal with |- _ /\ _ => split end); eexists; vm_compute; reflexivity. Qed.
 
-Theorem empty_refuted : exists ctx p, from_raw_parts ctx [] = Panic p.
-Proof. exists LE, PIndex. reflexivity. Qed.
-
-Theorem short_body_refuted : exists ctx b m p, from_raw_parts ctx b = Ok m /\ body m = Panic p.
-Proof. exists LE, wit_short. eexists. exists PAssert. split; vm_compute; reflexivity. Qed.
-
-Theorem invalid_name_refuted : exists ctx b m p, from_raw_parts ctx b = Ok m /\ header m = Panic p.
-Proof. exists LE, wit_name. eexists. exists PUnwrap. split; vm_compute; reflexivity. Qed.
-
-Theorem full_refuted : ~ C12_full_statement.
-Proof.
-  intros H. destruct (H LE []) as [Hn _]. apply (Hn PIndex). reflexivity.
-Qed.
-
-(* non-vacuity: a 76-byte signal with four fields and a body is outside every known class, and is accepted *)
+(* non-vacuity: an accepted message: a signal with four fields (one of them unknown, carrying an array of structures) and a body *)
 Definition ex_msg : bytes :=
   unhex "6c04000104000000070000003700000001016f00040000002f612f62000000000201730003000000612e6200000000000301730001000000530000000000000008016700017500002a000000".
-Example ex_not_known : Known_C12 LE ex_msg = false /\ exists m, from_raw_parts LE ex_msg = Ok m.
-Proof. split; [vm_compute; reflexivity|]. eexists. vm_compute. reflexivity. Qed.
+Example ex_accepted : exists m h bd, from_raw_parts LE ex_msg = Ok m /\ header m = Ok h /\ body m = Ok bd.
+Proof. eexists. eexists. eexists. repeat (match goal with |- _ /\ _ => split end); vm_compute; reflexivity. Qed.
